@@ -77,6 +77,13 @@ func docVals(ds []orda.Document) []interface{} {
 func Apply(dt interface{}, o Op) (ret interface{}, err error) {
 	switch t := dt.(type) {
 	case orda.CounterInTx:
+		if o.Kind == "inc" && o.N == 1 {
+			v, e := t.Increase() // the one-step form of the same call
+			if e != nil {
+				return nil, e
+			}
+			return v, nil
+		}
 		if o.Kind == "inc" {
 			v, e := t.IncreaseBy(int32(o.N))
 			if e != nil {
@@ -102,6 +109,13 @@ func Apply(dt interface{}, o Op) (ret interface{}, err error) {
 	case orda.ListInTx:
 		switch o.Kind {
 		case "ins":
+			if len(o.Vals) == 1 {
+				v, e := t.Insert(o.Pos, o.Vals[0]) // the single-value form of the same call
+				if e != nil {
+					return nil, e
+				}
+				return v, nil
+			}
 			v, e := t.InsertMany(o.Pos, o.Vals...)
 			if e != nil {
 				return nil, e
